@@ -1,5 +1,5 @@
 (** C03 — sort_strings yields a sorted permutation and exact LCP values.
-    Statements only; proofs live in C03/{SpecProofs,Sorters,LcpInsertion,Radix8,Mkqs,PartTotal,Radix16,InPlace,InPlace16,Dispatch}.v.
+    Statements only; proofs live in C03/{SpecProofs,Sorters,LcpInsertion,Radix8,Mkqs,PartTotal,MkqsTotal,Radix16,InPlace,InPlace16,Dispatch}.v.
     The model (C03/Model.v) is tied to /repo on every run by translate/sizes_c03.py (sizeof / threshold constants) and
     by the correspondence run of checks/C03.py (extracted model vs. the real sorters; extracted checker on the real
     output).
@@ -10,7 +10,7 @@
     (each selectable sequential sorter at every depth with a common prefix).  The only hypothesis is that the
     fuelled functions return a result ([= Some _]; fuel exhaustion is the error value). *)
 From Coq Require Import List NArith Sorting.Permutation Sorting.Sorted.
-From TLXV Require Import C03.Model C03.Spec C03.SpecProofs C03.Lemmas C03.Sorters C03.LcpInsertion C03.Radix8 C03.Mkqs C03.PartTotal C03.Radix16 C03.InPlace C03.InPlace16 C03.Dispatch.
+From TLXV Require Import C03.Model C03.Spec C03.SpecProofs C03.Lemmas C03.Sorters C03.LcpInsertion C03.Radix8 C03.Mkqs C03.PartTotal C03.MkqsTotal C03.Radix16 C03.InPlace C03.InPlace16 C03.Dispatch.
 Import ListNotations.
 
 (** Any two outputs satisfying SortedPermLcp for the same input have the same contents at every position and the
@@ -138,6 +138,23 @@ Theorem C03_mkqs_partition_total : forall pv d,
   (forall (l : list item) j, part_loop (S (length l)) pv d [] [] (tl (swap_idx l 0 j)) [] [] <> None).
 Proof. exact (fun pv d => conj (part_loop_total pv d) (mkqs_partition_total pv d)). Qed.
 Print Assumptions C03_mkqs_partition_total.
+
+(** Multikey quicksort always returns, and what it returns is right -- with NO "the model returned a result"
+    hypothesis: for every collection, depth, memory value and LCP array, the fuel the correspondence driver passes
+    (n + longest string + 8; any fuel above n + (longest - depth) will do) suffices, and the result is the sorted
+    permutation with exact LCPs.  (Measure: the less / greater blocks lose at least the pivot; the equal block is
+    sorted one character deeper only when its strings still have a character at the current depth.) *)
+Theorem C03_mkqs_total : forall sz wl fuel d mem l lcp,
+  length l + (mlen l - d) < fuel -> mkqs sz wl fuel d mem l lcp <> None.
+Proof. exact mkqs_total. Qed.
+Print Assumptions C03_mkqs_total.
+
+Theorem C03_multikey_quicksort_closed : forall sz wl mem p l lcp,
+  Pre p l -> all_nulfree l -> length lcp = length l ->
+  exists out lcp', mkqs sz wl (length l + mlen l + 8) (length p) mem l lcp = Some (out, lcp') /\
+                   OutOK wl l lcp out lcp'.
+Proof. exact mkqs_closed. Qed.
+Print Assumptions C03_multikey_quicksort_closed.
 
 (** The LCP boundary loop as shipped (704fd0b) reads bkt_size[256] when every string ends at the current depth
     (40 empty strings); the repaired loop (fixes/C03/01) yields exactly their LCPs. *)
